@@ -83,8 +83,56 @@ OTHERS = ["8.0.0", "8.1.0", "8.2.0", "score_1.0.0", "score_1.1.0", "score_2.0.0"
 KIND_NAMES = {}
 
 
+_GENERATED = {}
+
+
+def generated_xml(seed):
+    """A generated schema ("... and in generated schemas"): bundled 8.3.0 with, planted deterministically from `seed`,
+    named children - one value-taking, one plain with a child of its own - under value-taking nodes (so that a '#'
+    child has siblings: loadable, although check_compliance objects), and deep chains under plain nodes."""
+    if seed in _GENERATED:
+        return _GENERATED[seed]
+    import random
+    import xml.etree.ElementTree as ET
+    rng = random.Random(seed)
+    root = ET.parse(schema_xml.bundled()["8.3.0"]).getroot()
+    nodes = list(root.find("schema").iter("node"))
+
+    def nm(n):
+        return n.findtext("name")
+
+    def add(parent, name, valued=False):
+        e = ET.SubElement(parent, "node")
+        ET.SubElement(e, "name").text = name
+        if valued:
+            h = ET.SubElement(e, "node")
+            ET.SubElement(h, "name").text = "#"
+            ET.SubElement(ET.SubElement(h, "attribute"), "name").text = "takesValue"
+        return e
+
+    valued = [n for n in nodes if nm(n) != "#" and any(nm(c) == "#" for c in n.findall("node"))]
+    plain = [n for n in nodes if nm(n) != "#" and n not in valued]
+    for k, n in enumerate(rng.sample(valued, 14)):
+        add(n, f"Gen-valued-{seed}-{k}", valued=True)
+        add(add(n, f"Gen-plain-{seed}-{k}"), f"Gen-deep-{seed}-{k}", valued=rng.random() < 0.5)
+    for k, n in enumerate(rng.sample(plain, 8)):
+        add(add(add(n, f"Gen-chain-a-{seed}-{k}"), f"Gen-chain-b-{seed}-{k}"), f"Gen-chain-c-{seed}-{k}", valued=True)
+    _GENERATED[seed] = ET.tostring(root, encoding="unicode")
+    return _GENERATED[seed]
+
+
 def read_longs(name):
-    """long names of the tags of a bundled schema, or of several libraries merged (comma-separated), in load order"""
+    """long names of the tags of a bundled schema, of several libraries merged (comma-separated) in load order, or of a
+    generated schema (`gen:<seed>`)"""
+    if name.startswith("gen:"):
+        import os, tempfile
+        fd, path = tempfile.mkstemp(suffix=".xml")
+        try:
+            with os.fdopen(fd, "w", encoding="utf-8") as f:
+                f.write(generated_xml(int(name[4:])))
+            return [t["long"] for t in schema_xml.read(path)["tags"]]
+        finally:
+            os.unlink(path)
     longs, have = [], set()
     for part in name.split(","):
         for t in schema_xml.read(schema_xml.bundled()[part])["tags"]:
@@ -98,6 +146,12 @@ def load_impl(name, ns=""):
     from hed.errors.error_types import ValidationErrors
     for k in ("NO_VALID_TAG_FOUND", "INVALID_PARENT_NODE", "HED_LIBRARY_UNMATCHED"):
         KIND_NAMES[getattr(ValidationErrors, k)] = k
+    if name.startswith("gen:"):
+        from hed.schema import from_string
+        sch = from_string(generated_xml(int(name[4:])), schema_format=".xml")
+        if ns:
+            sch.set_schema_prefix(ns)
+        return sch
     from hed import load_schema_version
     v = name if "_" not in name else name
     return load_schema_version(f"{ns}{v}" if ns else v)
@@ -483,6 +537,7 @@ def run_schema(ctx, name, full, ns=""):
             # rather than as a string would eat them)
             near = [n for n in nodes if any(c and c[0].lower() in ns.lower() for c in n.split("/"))]
             pick |= set(ctx.rng.sample(near, min(len(near), 150)))
+        pick |= {n for n in nodes if "Gen-" in n}        # every planted node of a generated schema
         nodes = [n for n in nodes if n in pick]
     cases = []
     for long in nodes:
@@ -598,6 +653,9 @@ def run(ctx):
     run_schema(ctx, "8.3.0", False, ns="sc:")
     run_schema(ctx, "testlib_2.0.0", False, ns="tl:")
     run_schema(ctx, "testlib_2.0.0,score_1.1.0", False, ns="tl:")     # two libraries merged under one prefix
+    # generated schemas (value-taking nodes that also have named children, deep chains)
+    for g in range(1 if ctx.quick() else 6):
+        run_schema(ctx, f"gen:{ctx.seed * 100 + g}", True if not ctx.quick() else False)
     for n in OTHERS:
         run_schema(ctx, n, not ctx.quick())
     if not ctx.quick():
